@@ -65,6 +65,12 @@ func TestC09Histories(t *testing.T) {
 			// built above
 		} else if useStream {
 			fw := &frame.Writer{ByteWriter: w, DialectRW: di.rw}
+			if rapid.Bool().Draw(t, "framewriter_has_ids_of_its_own") {
+				// a frame writer that was configured for originating messages itself (deprecated fields) and is
+				// now used under a stream writer: the stream writer's settings describe what it originates
+				fw.OutVersion, fw.OutSystemID = frame.V2, byte(rapid.IntRange(1, 255).Draw(t, "fw_sys"))
+				fw.OutComponentID = byte(rapid.IntRange(1, 255).Draw(t, "fw_comp")) //nolint:staticcheck
+			}
 			if err := fw.Initialize(); err != nil {
 				t.Fatalf("BROKEN: %v", err)
 			}
@@ -339,6 +345,9 @@ func TestC09Initialization(t *testing.T) {
 					}
 					w := &recWriter{}
 					fw := &frame.Writer{ByteWriter: w, DialectRW: common.rw}
+					if n%2 == 1 {
+						fw.OutVersion, fw.OutSystemID, fw.OutComponentID = frame.V2, 99, 33 //nolint:staticcheck
+					}
 					if err := fw.Initialize(); err != nil {
 						t.Fatalf("BROKEN: %v", err)
 					}
@@ -360,18 +369,22 @@ func TestC09Initialization(t *testing.T) {
 							t.Fatalf("first frame after Initialize(version=%d sys=%d comp=%d): %s", ver, sys, comp, gen.Describe(p))
 						}
 					}
-					node := &gomavlib.Node{
-						Endpoints:   []gomavlib.EndpointConf{gomavlib.EndpointCustom{ReadWriteCloser: newIdleRWC()}},
-						Dialect:     common.rw.Dialect,
-						OutVersion:  gomavlib.Version(ver),
-						OutSystemID: sys, OutComponentID: comp, OutKey: key, HeartbeatDisable: true,
-					}
-					nerr := node.Initialize()
-					if (nerr != nil) != wantErr {
-						t.Fatalf("Node.Initialize(version=%d sys=%d key=%v): err=%v, want error=%v", ver, sys, keyed, nerr, wantErr)
-					}
-					if nerr == nil {
-						node.Close()
+					for _, withDialect := range []bool{true, false} {
+						node := &gomavlib.Node{
+							Endpoints:   []gomavlib.EndpointConf{gomavlib.EndpointCustom{ReadWriteCloser: newIdleRWC()}},
+							OutVersion:  gomavlib.Version(ver),
+							OutSystemID: sys, OutComponentID: comp, OutKey: key, HeartbeatDisable: true,
+						}
+						if withDialect {
+							node.Dialect = common.rw.Dialect
+						}
+						nerr := node.Initialize()
+						if (nerr != nil) != wantErr {
+							t.Fatalf("Node.Initialize(version=%d sys=%d key=%v, node has a dialect: %v): err=%v, want error=%v", ver, sys, keyed, withDialect, nerr, wantErr)
+						}
+						if nerr == nil {
+							node.Close()
+						}
 					}
 					n++
 					rec.Case(true, evid.HashS(fmt.Sprint(ver, sys, keyed, comp)), "init-combination")
